@@ -162,6 +162,8 @@ struct Found {
     key: String,
     source: String,
     what: String,
+    /// (chunk seed, case index) of a generated case: shrunk lazily when the signature is reported
+    gen: Option<(u64, usize)>,
 }
 
 #[derive(Default)]
@@ -183,9 +185,9 @@ fn run_chunk(idx: usize, n: usize, seed: u64, cfg: &gsyn::GsynConfig, known: &Kn
     let mut out = ChunkOut::default();
     let strat = gsyn::program_tree(cfg);
     let mut runner = vcore::gen::runner(seed);
-    let mut trees = vcore::gen::batch(&strat, &mut runner, n);
+    let trees = vcore::gen::batch(&strat, &mut runner, n);
     let mut seen: BTreeSet<String> = BTreeSet::new();
-    for (k, tree) in trees.iter_mut().enumerate() {
+    for (k, tree) in trees.iter().enumerate() {
         let p = gsyn::render(&tree.current());
         out.cases += 1;
         if !p.parsed {
@@ -213,9 +215,8 @@ fn run_chunk(idx: usize, n: usize, seed: u64, cfg: &gsyn::GsynConfig, known: &Kn
                     out.samples.push((p.source.clone(), formatted.clone()));
                 }
                 if idx < 40 && out.cli.len() < 1 && k % 17 == 5 && formatted != p.source && p.source.len() < 4000 {
-                    out.cli.push((p.source.clone(), formatted));
+                    out.cli.push((p.source.clone(), formatted.clone()));
                 }
-                let mut tree_used = false;
                 for f in fails {
                     if let Some(key) = known_key(&f, &tags, known) {
                         *out.excluded.entry(key).or_insert(0) += 1;
@@ -223,30 +224,8 @@ fn run_chunk(idx: usize, n: usize, seed: u64, cfg: &gsyn::GsynConfig, known: &Kn
                     }
                     out.violations += 1;
                     if seen.insert(f.key.clone()) {
-                        let key = f.key.clone();
-                        if tree_used {
-                            // the value tree was already shrunk for another signature of this case: report unshrunk
-                            out.found.push(Found { key, source: p.source.clone(), what: format!("{}\n--- input ---\n{}", f.what, util::truncate(&p.source, 1200)) });
-                            continue;
-                        }
-                        tree_used = true;
-                        let small = vcore::gen::shrink(tree, 500, |t| {
-                            let q = gsyn::render(t);
-                            q.parsed
-                                && matches!(judge(&q.source), Judged::Done { ref fails, ref tags, .. }
-                                    if fails.iter().any(|g| g.key == key && known_key(g, tags, known).is_none()))
-                        });
-                        let q = gsyn::render(&small);
-                        let what = match judge(&q.source) {
-                            Judged::Done { fails, formatted, .. } => format!(
-                                "{}\n--- input ---\n{}\n--- formatted ---\n{}",
-                                fails.iter().find(|g| g.key == key).map(|g| g.what.clone()).unwrap_or_default(),
-                                util::truncate(&q.source, 1200),
-                                util::truncate(&formatted, 1200)
-                            ),
-                            _ => f.what.clone(),
-                        };
-                        out.found.push(Found { key, source: q.source, what });
+                        let what = format!("{}\n--- input ---\n{}\n--- formatted ---\n{}", f.what, util::truncate(&p.source, 1200), util::truncate(&formatted, 1200));
+                        out.found.push(Found { key: f.key.clone(), source: p.source.clone(), what, gen: Some((seed, k)) });
                     }
                 }
             }
@@ -255,10 +234,35 @@ fn run_chunk(idx: usize, n: usize, seed: u64, cfg: &gsyn::GsynConfig, known: &Kn
     out
 }
 
-fn report(out: &mut Outcome, ev: &mut Evidence, f: &Found) {
-    if out.seen(&f.key) {
+fn shrink_generated(seed: u64, k: usize, key: &str, cfg: &gsyn::GsynConfig, known: &Known) -> Option<(String, String)> {
+    let strat = gsyn::program_tree(cfg);
+    let mut runner = vcore::gen::runner(seed);
+    let mut trees = vcore::gen::batch(&strat, &mut runner, k + 1);
+    let tree = trees.last_mut()?;
+    let small = vcore::gen::shrink(tree, 600, |t| {
+        let q = gsyn::render(t);
+        q.parsed && matches!(judge(&q.source), Judged::Done { ref fails, ref tags, .. } if fails.iter().any(|g| g.key == key && known_key(g, tags, known).is_none()))
+    });
+    let q = gsyn::render(&small);
+    match judge(&q.source) {
+        Judged::Done { fails, formatted, .. } => {
+            let f = fails.into_iter().find(|g| g.key == key)?;
+            Some((q.source.clone(), format!("{}\n--- input (shrunk) ---\n{}\n--- formatted ---\n{}", f.what, util::truncate(&q.source, 1200), util::truncate(&formatted, 1200))))
+        }
+        _ => None,
+    }
+}
+
+fn report(out: &mut Outcome, ev: &mut Evidence, f: &Found, shrink: Option<(&gsyn::GsynConfig, &Known)>) {
+    if out.seen(&f.key) || out.violations.len() >= out.max_reports {
         ev.violations += 1;
         return;
+    }
+    if let (Some((seed, k)), Some((cfg, known))) = (f.gen, shrink) {
+        if let Some((source, what)) = shrink_generated(seed, k, &f.key, cfg, known) {
+            out.violation(ev, &f.key, "incn", &source, &what);
+            return;
+        }
     }
     out.violation(ev, &f.key, "incn", &f.source, &f.what);
 }
@@ -281,7 +285,7 @@ fn judge_text_and_report(name: &str, text: &str, known: &Known, out: &mut Outcom
                     continue;
                 }
                 let what = format!("origin: {name}\n{}\n--- input ---\n{}\n--- formatted ---\n{}", f.what, util::truncate(text, 1200), util::truncate(&formatted, 1200));
-                report(out, ev, &Found { key: f.key, source: text.to_string(), what });
+                report(out, ev, &Found { key: f.key, source: text.to_string(), what, gen: None }, None);
             }
             "judged"
         }
@@ -313,7 +317,7 @@ fn cli_leg(files: &[(String, String)], seed: u64, out: &mut Outcome, ev: &mut Ev
         farm::run_cmd(c, std::time::Duration::from_secs(60))
     };
     let mut cli_fail = |out: &mut Outcome, ev: &mut Evidence, key: &str, src: &str, what: String| {
-        report(out, ev, &Found { key: format!("cli:{key}"), source: src.to_string(), what });
+        report(out, ev, &Found { key: format!("cli:{key}"), source: src.to_string(), what, gen: None }, None);
     };
     for (i, (src, expected)) in files.iter().enumerate() {
         let file = dir.join(format!("case{i}.incn"));
@@ -496,7 +500,7 @@ fn main() {
         }
         ev.violations += r.violations.saturating_sub(r.found.len() as u64);
         for f in &r.found {
-            report(&mut out, &mut ev, f);
+            report(&mut out, &mut ev, f, Some((&cfg, &known)));
         }
     }
     ev.class_n("gsyn_programs", generated);
